@@ -35,13 +35,10 @@ theorem lookup_mem' {β} (m : List (Nat × β)) (a : Nat) (c : β) (hl : m.looku
       exact List.mem_cons_of_mem _ (ih hl)
 
 /-- The assumptions about the heap in which a copy starts: no dangling references, class-level lists hold only
-    strings, and every model / linker instance has the `endogenous` and `check` entries its constructor made. -/
+    strings. -/
 structure WorldOK (cs : List ClassDesc) (h0 : Heap) : Prop where
   wf : WF h0
   classes : ∀ (ci : Nat) (cd : ClassDesc), cs[ci]? = some cd → ClassOK h0 cd
-  insts : ∀ (l : Nat) (o : Obj) (ci : Nat) (cd : ClassDesc), h0[l]? = some o → o.kind = .inst ci →
-    cs[ci]? = some cd → cd.base ≠ .container →
-    "endogenous" ∈ o.slots.map Prod.fst ∧ "check" ∈ o.slots.map Prod.fst
 
 /-- What a deep-copier guarantees when started inside an extension of `h0` on a value of `h0`. -/
 def Spec (h0 : Heap) (dc : Copier) : Prop :=
@@ -177,37 +174,14 @@ theorem lookup_getD_old {b : Nat} {ss : List (String × Val)} (O : OldSlots b ss
   | none => intro c hc; simp at hc
   | some v => simpa using O k v (lookup_mem _ _ _ hl)
 
-/-- After `copied.__dict__.update(...)` nothing the constructor put under `endogenous` / `check` survives. -/
-theorem updated_new {fix : Bool} {b : Nat} {h0 h hc h4 : Heap} {cd : ClassDesc} {init ss keys : List (String × Val)}
-    (Si : StageOK fix b h0 cd h (hc, init)) (e4 : Ext hc h4) (N : NewSlots b h4 ss)
-    (K : ss.map Prod.fst = keys.map Prod.fst)
-    (hk : fix = false → cd.base ≠ .container →
-      "endogenous" ∈ keys.map Prod.fst ∧ "check" ∈ keys.map Prod.fst) :
+/-- After `copied.__dict__.update(...)`: entries of the fresh `__dict__` and copied entries are all new. -/
+theorem updated_new {b : Nat} {h0 h hc h4 : Heap} {cd : ClassDesc} {init ss : List (String × Val)}
+    (Si : StageOK b h0 cd h (hc, init)) (e4 : Ext hc h4) (N : NewSlots b h4 ss) :
     NewSlots b h4 (slotUpdate init ss) := by
   intro k v hm
-  rcases mem_slotUpdate ss init k v hm with h1 | ⟨h1, h2⟩
+  rcases mem_slotUpdate ss init k v hm with h1 | ⟨h1, _⟩
   · exact N k v h1
-  · rcases Si.slots k v h1 with h3 | ⟨hf, hnc, h3⟩
-    · exact h3.mono e4
-    · rw [K] at h2
-      rcases h3 with ⟨rfl, _⟩ | ⟨rfl, _⟩
-      · exact absurd (hk hf hnc).1 h2
-      · exact absurd (hk hf hnc).2 h2
-
-theorem immSlots_norefs : ∀ (ss : List (String × Val)) k c, (k, Val.ref c) ∉ immSlots ss := by
-  intro ss
-  induction ss with
-  | nil => intro k c hm; simp [immSlots] at hm
-  | cons kv ss ih =>
-    intro k c hm
-    obtain ⟨k0, v0⟩ := kv
-    cases v0 with
-    | imm i =>
-      simp only [immSlots] at hm
-      rcases List.mem_cons.mp hm with h1 | h1
-      · cases h1
-      · exact ih k c h1
-    | ref l => simp only [immSlots] at hm; exact ih k c hm
+  · exact (Si.slots k v h1).mono e4
 
 theorem linkerSpan_spec {b : Nat} {h : Heap} (B : Blk b h) (hb : b ≤ h.length) (subs : List (String × Val)) :
     Ext h (linkerSpan h subs).1 ∧ Blk b (linkerSpan h subs).1 ∧ NewV b (linkerSpan h subs).1 (linkerSpan h subs).2 := by
@@ -244,10 +218,10 @@ theorem getObj_old {h0 h : Heap} (e : Ext h0 h) {v : Val} (O : OldV h0.length v)
   | ref c => simp only [getObj]; exact e.get (O c rfl)
 
 /-- `copy()` of an old instance object: the new `__dict__` refers to new objects only. -/
-theorem copyInstWith_spec {fix : Bool} {cs : List ClassDesc} {h0 : Heap} (W : WorldOK cs h0) {dc : Copier}
+theorem copyInstWith_spec {cs : List ClassDesc} {h0 : Heap} (W : WorldOK cs h0) {dc : Copier}
     (S : Spec h0 dc) {cd : ClassDesc} {ci : Nat} (hcd : cs[ci]? = some cd) {l : Nat} {o : Obj}
     (ho : h0[l]? = some o) (hk : o.kind = .inst ci) {h h1 : Heap} {ss : List (String × Val)}
-    (e : Ext h0 h) (B : Blk h0.length h) (hc : copyInstWith fix dc cd h o = some (h1, ss)) :
+    (e : Ext h0 h) (B : Blk h0.length h) (hc : copyInstWith dc cd h o = some (h1, ss)) :
     Ext h h1 ∧ Blk h0.length h1 ∧ NewSlots h0.length h1 ss := by
   have ok := W.classes ci cd hcd
   have O := oldSlots_of_wf W.wf ho
@@ -286,9 +260,9 @@ theorem copyInstWith_spec {fix : Bool} {cs : List ClassDesc} {h0 : Heap} (W : Wo
         have Nsub : NewV h0.length h2 (.ref ha.length) := by
           have := e2.len; simp at this
           exact NewV.ref lena (by omega)
-        have C := construct_ok (b := h0.length) W.wf ((e.trans ea).trans ed) ok B2 (by omega) fix sp
+        have C := construct_ok (b := h0.length) W.wf ((e.trans ea).trans ed) ok B2 (by omega) sp
           (.ref ha.length) N2 Nsub
-        generalize construct fix cd h2 sp (.ref ha.length) = r3 at hc C
+        generalize construct cd h2 sp (.ref ha.length) = r3 at hc C
         obtain ⟨h3, init⟩ := r3
         simp only at hc
         cases h4c : copyEachWith dc h3 (dropKey "submodels" o.slots) with
@@ -300,10 +274,7 @@ theorem copyInstWith_spec {fix : Bool} {cs : List ClassDesc} {h0 : Heap} (W : Wo
           obtain ⟨e4, B4, N4, K4⟩ := copyEachWith_spec S _ h3 h1 ss4 (((e.trans ea).trans ed).trans C.ext) C.blk
             (oldSlots_dropKey _ O) h4c
           refine ⟨((ea.trans ed).trans C.ext).trans e4, B4, ?_⟩
-          apply updated_new C e4 N4 K4
-          intro hf hnc
-          have := W.insts l o ci cd ho hk hcd hnc
-          exact ⟨mem_keys_dropKey (by decide) this.1, mem_keys_dropKey (by decide) this.2⟩
+          exact updated_new C e4 N4
   · simp only [hl, if_false] at hc
     have Osp := lookup_getD_old O "span"
     cases hd : dc h [] ((o.slots.lookup "span").getD (.imm .none)) with
@@ -313,9 +284,9 @@ theorem copyInstWith_spec {fix : Bool} {cs : List ClassDesc} {h0 : Heap} (W : Wo
       simp only [hd] at hc
       obtain ⟨ea, Ba, _, Nsp⟩ := S h [] _ ha ma sp e B (MemoOK.nil _ _) Osp hd
       have lena := (e.trans ea).len
-      have C := construct_ok (b := h0.length) W.wf (e.trans ea) ok Ba (by omega) fix sp (.imm .none) Nsp
+      have C := construct_ok (b := h0.length) W.wf (e.trans ea) ok Ba (by omega) sp (.imm .none) Nsp
         (NewV.imm _ _ _)
-      generalize construct fix cd ha sp (.imm .none) = r3 at hc C
+      generalize construct cd ha sp (.imm .none) = r3 at hc C
       obtain ⟨h3, init⟩ := r3
       simp only at hc
       cases h4c : copyEachWith dc h3 o.slots with
@@ -326,13 +297,11 @@ theorem copyInstWith_spec {fix : Bool} {cs : List ClassDesc} {h0 : Heap} (W : Wo
         cases hc
         obtain ⟨e4, B4, N4, K4⟩ := copyEachWith_spec S _ h3 h1 ss4 ((e.trans ea).trans C.ext) C.blk O h4c
         refine ⟨(ea.trans C.ext).trans e4, B4, ?_⟩
-        apply updated_new C e4 N4 K4
-        intro hf hnc
-        exact W.insts l o ci cd ho hk hcd hnc
+        exact updated_new C e4 N4
 
 /-- `copy.deepcopy` meets `Spec` for every amount of fuel. -/
-theorem deepcopy_spec {fix : Bool} {cs : List ClassDesc} {h0 : Heap} (W : WorldOK cs h0) :
-    ∀ n, Spec h0 (deepcopy fix cs n) := by
+theorem deepcopy_spec {cs : List ClassDesc} {h0 : Heap} (W : WorldOK cs h0) :
+    ∀ n, Spec h0 (deepcopy cs n) := by
   intro n
   induction n with
   | zero =>
@@ -372,7 +341,7 @@ theorem deepcopy_spec {fix : Bool} {cs : List ClassDesc} {h0 : Heap} (W : WorldO
             | none => simp [hcd] at hc
             | some cd =>
               simp only [hcd] at hc
-              cases hci : copyInstWith fix (deepcopy fix cs n) cd h o with
+              cases hci : copyInstWith (deepcopy cs n) cd h o with
               | none => simp [hci] at hc
               | some r =>
                 obtain ⟨ha, ss⟩ := r
@@ -392,7 +361,7 @@ theorem deepcopy_spec {fix : Bool} {cs : List ClassDesc} {h0 : Heap} (W : WorldO
                   · exact (M.mono (ea.trans (Ext.append _ _))) a c h2
           | list | array | dict | trace | cls =>
             simp only [hk] at hc
-            cases hcs : copySlotsWith (deepcopy fix cs n) h m o.slots with
+            cases hcs : copySlotsWith (deepcopy cs n) h m o.slots with
             | none => simp [hcs] at hc
             | some r =>
               obtain ⟨ha, ma, ss⟩ := r
@@ -414,11 +383,11 @@ theorem deepcopy_spec {fix : Bool} {cs : List ClassDesc} {h0 : Heap} (W : WorldO
 
 /-- `a.copy()` / `copy.copy(a)` / `copy.deepcopy(a)`: the heap is extended, the old part is untouched, the result is
     a new location and everything reachable from it is new. -/
-theorem copyRoot_new {fix : Bool} {cs : List ClassDesc} {h0 : Heap} (W : WorldOK cs h0) {a c : Nat} {h1 : Heap}
-    (ha : a < h0.length) (hc : copyRoot fix cs h0 a = some (h1, c)) :
+theorem copyRoot_new {cs : List ClassDesc} {h0 : Heap} (W : WorldOK cs h0) {a c : Nat} {h1 : Heap}
+    (ha : a < h0.length) (hc : copyRoot cs h0 a = some (h1, c)) :
     Ext h0 h1 ∧ WF h1 ∧ c < h1.length ∧ ∀ x, Reach h1 c x → h0.length ≤ x := by
   unfold copyRoot at hc
-  cases hd : deepcopy fix cs (h0.length + 1) h0 [] (.ref a) with
+  cases hd : deepcopy cs (h0.length + 1) h0 [] (.ref a) with
   | none => simp [hd] at hc
   | some r =>
     obtain ⟨hh, mm, v⟩ := r
